@@ -22,6 +22,8 @@ def check(ctx):
     repo = ctx.repo
     docs = require_labels(ADAPTIVE_LABELS)
     ctx.note("specification", {k: v[:200] for k, v in docs.items()})
+    ctx.rule("R12.8", "exhausting the retries raises *out of the run*: an error raised by the n-th update or the n-th save leaves Runner._run_stage and "
+                      "Runner.run as that error (predicate on the traces of the loop, pvs/run_trace.py)", 1)
     ctx.rule("R12.7", "the step settings of SolverOptions are declared in the documented (positional) order", 1)
     ctx.rule("R12.6", "the library never rewrites the user's options (adaptive, dt_init, dt_max, multiplier, retries ...): the step rule runs with the settings given", 1)
     ctx.rule("R12.1", "proposed step == clip(1/2 (dt + dt_init / max(1e-10, mean(last `window` values))), 0, dt_max) under "
@@ -334,6 +336,12 @@ def step_reported(ctx, fu):
     ctx.ob("R12.4", "the runner adds the returned dt to the clock", not Vl["clock"], detail=Vl["clock"][:3], where=fr.fq, construct="clock advance",
            loc=loc(fr, fr.node), message=f"the runner no longer advances self.time by the dt returned by the update: {Vl['clock'][:1]}",
            consequence="frame times are not the sum of the steps used")
+    from ..run_rules import run_verdicts
+    errs = Vl["errors"] + run_verdicts(repo)["errors"]
+    ctx.ob("R12.8", "an error raised by the update (retries exhausted) leaves the stage and run() as that error; no update runs after it", not errs,
+           detail=errs[:4], where=fr.fq, construct="propagation of an error raised in the update", loc=loc(fr, fr.node),
+           message=f"the error of a step that was refused for good does not stop the run: {errs[:2]}",
+           consequence="exhausting the retries no longer raises: tdgl.solve returns a Solution (and a failed thermalisation is followed by the recorded stage)")
 
 
 STEP_FIELDS = ("solve_time", "skip_time", "dt_init", "dt_max", "adaptive", "adaptive_window", "max_solve_retries", "adaptive_time_step_multiplier")
